@@ -131,6 +131,12 @@ impl CachedBlocks {
     ]
   }
 
+  /// Select the ROM bank that lookups and insertions in 0x4000 - 0x7fff
+  /// refer to.
+  pub fn set_rom_bank(&mut self, bank: u16) {
+    self.rom_high.set_bank(bank);
+  }
+
   pub fn get_region(&self, addr: u16) -> Option<&CacheRegion> {
     if addr < 0x4000 {
       return Some(&self.rom_low);
